@@ -205,7 +205,7 @@ func newFleetEnv(ctx *core.Ctx, spec fleetSpec) (*fleetEnv, error) {
 			Base:      base,
 			Transport: func(tc *forwarder.HTTPTransportConfig) { tc.CACertFiles = []string{fe.caFile} },
 			// one connection per forwarded request: the relays count forwards
-			PostTransport: func(rt *http.Transport) { rt.DisableKeepAlives = true },
+			PostTransport: func(rt *http.Transport) { rt.DisableKeepAlives = true; asRunComposes(rt) },
 			Configure: func(cfg *forwarder.HTTPProxyConfig) {
 				// the topology lives in the transports' dial redirects: the proxy configurations of a fleet
 				// differ in nothing but what the build says (and the registry / listener protocol, which
@@ -574,6 +574,10 @@ func (fe *fleetEnv) runFleet(ctx *core.Ctx, fc *fleetCase) {
 				return false
 			}
 		}
+		// (a CONNECT over a SOCKS5 link: the SOCKS server's connection to the terminal peer may be counted after the 200)
+		if wantTerminal && fe.terminal != nil && fe.terminal.Accepts() < 1 {
+			return false
+		}
 		return true
 	}, 500*time.Millisecond)
 	time.Sleep(2 * time.Millisecond)
@@ -802,7 +806,7 @@ func genFleet(r *core.Rand) *fleetCase {
 			case r.Chance(25):
 				els = append(els, "1.1 "+proxyName+"-"+randHex(r, 20)) // same name, an instance outside the fleet
 			default:
-				els = append(els, core.Pick(r, foreignElements))
+				els = append(els, foreignElement(r))
 			}
 		}
 		if r.Chance(25) {
